@@ -665,7 +665,7 @@ Qed.
 
 Lemma stream_write_effect y x sid' data ch y' evs :
   stream_write y x sid' data ch = (y', evs) -> WF y ->
-  (forall q w c, sview y = Some (q, w, c) -> w <> 2) ->
+  (forall q w, sview y = Some (q, w, false) -> w <> 2) ->
   exists acts, vsteps y acts y' /\ emitted acts = ev_frames evs /\ readout acts = [] /\ arrivals acts = [].
 Proof.
   unfold stream_write. intros H Hwf Hw2.
@@ -677,7 +677,7 @@ Proof.
   - apply andb_prop in Es as [E1 E2]. apply side_eqb_eq in E1. subst x. assert (sid' = sid) by lia. subst sid'.
     assert (Hsv : sview y = Some (st_seq st, st_wcl st, false)).
     { rewrite sview_def, El. cbn. unfold sv. now rewrite Ecl. }
-    destruct (write_loop_self _ _ _ _ _ _ _ _ _ _ _ _ Ew Hwf Hsv (Hw2 _ _ _ Hsv)) as (acts & Hv & He & Hr & Ha).
+    destruct (write_loop_self _ _ _ _ _ _ _ _ _ _ _ _ Ew Hwf Hsv (Hw2 _ _ Hsv)) as (acts & Hv & He & Hr & Ha).
     exists acts. split; [exact Hv|]. split; [|split; assumption].
     rewrite ev_frames_app, He. cbn. now rewrite app_nil_r.
   - destruct (write_loop_other _ _ _ _ _ _ _ _ _ _ _ _ Ew Es) as [Hq Hf].
@@ -822,7 +822,7 @@ Definition core_reads (l : label) (evs : list ev) : list N :=
 Lemma step_core_effect y l ch y' evs :
   step_core y l ch = (y', evs) -> WF y ->
   (forall x, l = LOpen x -> lookup (se_nextsid (sess y x)) (se_objs (sess y x)) = None) ->
-  (forall q w c, sview y = Some (q, w, c) -> w <> 2) ->
+  (forall q w, sview y = Some (q, w, false) -> w <> 2) ->
   exists y1 pend acts,
     ((pend = None /\ y1 = y) \/
      (exists fr, pend = Some fr /\ keep fr = true /\ Permutation (inflight y) (fr :: inflight y1) /\
